@@ -10,6 +10,7 @@ import (
 	"strconv"
 	"strings"
 	"sync"
+	"sync/atomic"
 	"testing"
 	"unicode"
 
@@ -245,7 +246,7 @@ func RunScenario(t *testing.T, rec *Recorder, sc *Scenario) {
 	rec.Resume()
 	begin := F{"id": sc.ID, "name": name, "sname": SafeName(name), "entry": entry, "nruns": len(runs), "version": ver}
 	for k, v := range sc.Tag {
-		begin[k] = v
+		begin[k] = normJSON(v)
 	}
 	rec.Emit("scen.begin", begin)
 	r := NewRunner(rec)
@@ -455,7 +456,18 @@ var Captured struct {
 	enabled bool
 }
 
+// CurPhase is the kind of the invocation in progress (from the phase hook).
+var CurPhase atomic.Value
+
 func CaptureHook(ev string, kv []any) {
+	if ev == "phase" {
+		for i := 0; i+1 < len(kv); i += 2 {
+			if kv[i] == "kind" {
+				CurPhase.Store(kv[i+1])
+			}
+		}
+		return
+	}
 	if ev != "prune.begin" && ev != "prune.end" {
 		return
 	}
@@ -523,4 +535,28 @@ func rapidVersionOf() string {
 		}
 	}
 	return cachedVersion
+}
+
+// normJSON turns integral JSON numbers (decoded as float64) back into ints, recursively.
+func normJSON(v any) any {
+	switch x := v.(type) {
+	case float64:
+		if x == float64(int(x)) {
+			return int(x)
+		}
+		return x
+	case []any:
+		out := make([]any, len(x))
+		for i, e := range x {
+			out[i] = normJSON(e)
+		}
+		return out
+	case map[string]any:
+		out := F{}
+		for k, e := range x {
+			out[k] = normJSON(e)
+		}
+		return out
+	}
+	return v
 }
